@@ -35,6 +35,7 @@ PROJECTS_QUICK = [
     "two_crates",
     "cycles",
     "cycles_plain",
+    "ambig_impls",
 ]
 PROJECTS_THOROUGH = PROJECTS_QUICK + [
     {"name": "account", "repo_path": CONTRACTS + "account.cairo", "starknet": True, "edition": "2024_07"},
@@ -60,6 +61,8 @@ def resolve_project(p):
         return dict(cdb_corpus.cycles_project(), k="project")
     if p == "cycles_plain":
         return dict(cdb_corpus.cycles_project(plain=True), k="project")
+    if p == "ambig_impls":
+        return dict(cdb_corpus.ambig_project(), k="project")
     q = dict(p, k="project")
     q["path"] = os.path.join(REPO, q.pop("repo_path"))
     if not os.path.exists(q["path"]):
